@@ -262,6 +262,9 @@ func (m *Monitor) IOFaulted(role, op, addr string) {
 		if _, ok := m.relayErr[addr]; !ok {
 			m.relayErr[addr] = now
 		}
+		for _, a := range m.M.ByRelay[addr] {
+			m.markEnding(a, now, "relay-failure")
+		}
 	case role == "relay" && op == "WriteTo":
 		i := strings.Index(addr, ">")
 		m.relayWriteErr[addr[:i]] = true
@@ -581,7 +584,7 @@ func (m *Monitor) respAllocate(r *mReq, msg *stun.Message, ok bool, code int, I 
 		}
 	}
 	m.Net.mu.Unlock()
-	if bound == nil && !ended && Ic.Lo+int64(life)*1e9 > I.Hi {
+	if bound == nil && !ended && !m.serverClosed && Ic.Lo+int64(life)*1e9 > I.Hi {
 		m.v([]string{"C19", "C20"}, "relay-unreachable", nil, "Allocate advertised %s but no open relay socket is bound there", a.RelayKey)
 	}
 	for _, o := range m.M.ByRelay[a.RelayKey] {
@@ -650,7 +653,7 @@ func (m *Monitor) respCreatePerm(r *mReq, msg *stun.Message, ok bool, code int, 
 	poss, def := m.ownerAllocs(r, I)
 	peers, bad := allXORAddrs(r.Msg, attrXORPeerAddress)
 	if !ok {
-		if def != nil && r.Auth > 0 && r.User == def.User && !bad && len(peers) > 0 {
+		if def != nil && !m.serverClosed && r.Auth > 0 && r.User == def.User && !bad && len(peers) > 0 {
 			allOK := true
 			for _, p := range peers {
 				if m.vetoed(r.Client, p.IP) || ipFamily(p.IP) != def.Family {
@@ -694,7 +697,7 @@ func (m *Monitor) respChannelBind(r *mReq, msg *stun.Message, ok bool, code int,
 	n, okN := getChannel(r.Msg)
 	peer, okP := getXORAddr(r.Msg, attrXORPeerAddress)
 	if !ok {
-		if def != nil && r.Auth > 0 && r.User == def.User && okN && okP && n >= 0x4000 && n <= 0x7FFF &&
+		if def != nil && !m.serverClosed && r.Auth > 0 && r.User == def.User && okN && okP && n >= 0x4000 && n <= 0x7FFF &&
 			!m.vetoed(r.Client, peer.IP) && ipFamily(peer.IP) == def.Family && !m.M.ChanConflictPossibly(def, n, ustr(peer), I.Lo, I.Hi) {
 			cls := "valid-request-rejected"
 			if m.M.ChanDefinitely(def, n, ustr(peer), I.Lo, I.Hi) {
@@ -1128,8 +1131,20 @@ func (m *Monitor) onAllocDeleted(client string, now int64) {
 	m.M.EndAlloc(a, ivl{now, now}, "unexplained")
 }
 
+// markEnding: a teardown cause has struck; the allocation is no longer definitely alive from
+// now on, although its removal (and the deleted event) may complete later.
+func (m *Monitor) markEnding(a *mAlloc, now int64, cause string) {
+	if a.End == nil && m.M.PossiblyAlive(a, now, now) {
+		a.End = &ivl{now, 1 << 61}
+		a.EndCause = cause
+	}
+}
+
 func (m *Monitor) explainDelete(a *mAlloc, client string, now int64) bool {
 	if a.End != nil && now >= a.End.Lo {
+		if a.End.Hi > now {
+			a.End.Hi = now
+		}
 		return true
 	}
 	if m.serverClosed {
@@ -1205,7 +1220,7 @@ func (m *Monitor) Idle(now int64, allocCount int, lossFree bool) {
 		}
 		s.Judged = true
 		keep = append(keep, s)
-		if m.NoMust || !lossFree || s.MsgLen >= m.InboundMTU {
+		if m.NoMust || m.serverClosed || !lossFree || s.MsgLen >= m.InboundMTU {
 			continue
 		}
 		for _, a := range m.M.Allocs[s.Client] {
@@ -1245,7 +1260,7 @@ func (m *Monitor) Idle(now int64, allocCount int, lossFree bool) {
 		}
 		i.Judged = true
 		keepI = append(keepI, i)
-		if m.NoMust || !lossFree || len(i.Payload) > m.MustMax {
+		if m.NoMust || m.serverClosed || !lossFree || len(i.Payload) > m.MustMax {
 			continue
 		}
 		for _, a := range m.M.ByRelay[i.RelayKey] {
